@@ -479,13 +479,21 @@ def gen_history(r, version, opts=None):
             busy = [j for j in rem if st.model.recs[j].rt == "S" and len(st.model.dependants(st.model.recs[j])) >= 2]
             if busy and gen.chance(r, 0.5):
                 i = gen.choice(r, busy)  # a segment with several kinds of dependants: they go, it returns alone
+            edges_ = [j for j in rem if st.model.recs[j].rt == "E"]
+            if edges_ and gen.chance(r, 0.35):
+                i = gen.choice(r, edges_)
             rec = st.model.recs[i]
             op = ["readd", i, gen.choice(r, ["rm", "disc"])]
-            if rec.rt == "E" and gen.chance(r, 0.5):
+            if rec.rt == "E" and gen.chance(r, 0.6):
                 # while it is out of the Gfa its intervals are edited (its kind may change)
                 n1, n2 = M.split_oriented(rec.pos[1])[0], M.split_oriented(rec.pos[2])[0]
-                b1, e1, _k = gen.interval(r, seg_len(st, n1))
-                b2, e2, _k = gen.interval(r, seg_len(st, n2))
+                k1 = k2 = None
+                if M.classify_edge(rec)[0] == "L" and seg_len(st, n1) >= 2 and seg_len(st, n2) >= 2 and gen.chance(r, 0.6):
+                    # a dovetail becomes the dovetail over the two OTHER ends (what was the 'from' side is the 'to' side now)
+                    flip = {"pfx": "sfx", "sfx": "pfx"}
+                    k1, k2 = flip[M.substring_type(rec.pos[3], rec.pos[4])], flip[M.substring_type(rec.pos[5], rec.pos[6])]
+                b1, e1, _k = gen.interval(r, seg_len(st, n1), k1)
+                b2, e2, _k = gen.interval(r, seg_len(st, n2), k2)
                 op.append({"beg1": b1, "end1": e1, "beg2": b2, "end2": e2})
             ops.append(op)
             st.model.remove(rec)
